@@ -9,7 +9,11 @@ from __future__ import annotations
 
 import hashlib
 import math
+import os
+import random
+import re
 import sys
+import tempfile
 
 import numpy as np
 
@@ -71,6 +75,10 @@ class Recorder:
         self.cutoffs: list = []                 # RefusalProbe instances
         self.precision = None                   # PrecisionCutoffProblem, if any (atom `hit`)
         self.extra: dict = {}
+        self.reports = False                    # C20: probe the reporting / query accessors at every loop-head boundary
+        self.dump_at = None                     # C19: snapshot + restore at this metaepoch boundary
+        self.dumped = False
+        self.loaded_runs: list = []             # traces of continued loaded trees
         self.shared = False                     # one problem object shared by all levels: no per-level streams
         self.tree = None                        # set by the runner right after construction
 
@@ -202,6 +210,164 @@ class Recorder:
                 h.update((np.float64(np.nan if f is None else f) * sign + 0.0).tobytes())
         return h.hexdigest()[:12]
 
+    # ------------------------------------------------------------------ C19 / C20 probes
+    def state_digest(self, tree, with_rng: bool = False) -> str:
+        """digest of everything observable about the tree (structure, flags, counters, full histories)"""
+        h = hashlib.sha1()
+        h.update(str(int(tree.metaepoch_count)).encode())
+        for lvl, level in enumerate(tree.levels):
+            h.update(b"L%d" % lvl)
+            for d in level:
+                h.update(repr((d.id, int(d.level), int(d.started_at), d.__class__.__name__, bool(d.is_active),
+                               bool(getattr(d, "_hibernating", False)), int(d.n_evaluations), int(d.metaepoch_count),
+                               [len(m) for m in d._history], [c.id for c in d.children])).encode())
+                h.update(self._digest([g for m in d._history for g in m]).encode())
+                if d._sprout_seed is not None:
+                    h.update(_key(d._sprout_seed.genome))
+        if with_rng:
+            st = np.random.get_state()
+            h.update(st[1].tobytes())
+            h.update(repr(st[2:]).encode())
+            h.update(repr(random.getstate()).encode())
+        return h.hexdigest()[:16]
+
+    _DEME_LINE = re.compile(r"^(?P<prefix>[^A-Za-z]*)(?P<cls>\w+) (?P<id>\S+)(?P<star> \*\*\*)? +f\(.*\) ~= (?P<fit>\S+)(?: sprout: \(.*\);)? evals: (?P<ev>\d+) ?(?P<new>\(new_deme\))?\s*$")
+
+    def parse_report(self, summary: str, treetxt: str) -> dict:
+        out = {"ok": 1, "levels": [], "lines": []}
+        lines = summary.split("\n")
+        try:
+            out["mc"] = int(lines[0].split(": ")[1])
+            out["bestfit"] = lines[1].split(": ")[1]
+            out["tev"] = int(lines[3].split(": ")[1])
+            out["ndemes"] = int(lines[4].split(": ")[1])
+            i = 5
+            while i < len(lines):
+                ln = lines[i]
+                if ln.startswith("Level "):
+                    if lines[i + 1].startswith("No demes available"):
+                        out["levels"].append({"empty": 1, "nev": 0, "nd": 0, "bestfit": ""})
+                        i += 2
+                    else:
+                        out["levels"].append({"empty": 0, "bestfit": lines[i + 1].split(": ")[1],
+                                              "nev": int(lines[i + 3].split(": ")[1]), "nd": int(lines[i + 4].split(": ")[1])})
+                        i += 5
+                else:
+                    i += 1
+            for ln in treetxt.split("\n"):
+                if not ln.strip():
+                    continue
+                m = self._DEME_LINE.match(ln)
+                if not m:
+                    out["ok"] = 0
+                    continue
+                out["lines"].append({"id": m.group("id"), "cls": m.group("cls"), "star": int(bool(m.group("star"))),
+                                     "ev": int(m.group("ev")), "fit": m.group("fit"), "new": int(bool(m.group("new")))})
+        except (IndexError, ValueError):
+            out["ok"] = 0
+        return out
+
+    def emit_report(self, tree) -> None:
+        """C20: call every reporting / query accessor twice; log parsed reports, purity and idempotence atoms"""
+        ncalls0 = sum(self.level_calls.values())
+        d0 = self.state_digest(tree, with_rng=True)
+
+        def guarded(f):
+            try:
+                return f()
+            except Exception as ex:  # noqa: BLE001   (an accessor that raises is recorded as its answer)
+                return "EXC " + type(ex).__name__
+
+        def answers():
+            a = {"summary": tree.summary(), "tree": tree.tree()}
+            bi = tree.best_individual
+            a["best"] = (_key(bi.genome), float(bi.fitness))
+            a["all"] = guarded(lambda: [(_key(i.genome), float(i.fitness)) for i in tree.all_individuals])
+            a["r5s"] = guarded(lambda: [(_key(i.genome), float(i.fitness)) for i in tree.r5s_solutions])
+            a["demes"] = []
+            for _, d in tree.all_demes:
+                a["demes"].append((d.id,
+                                   guarded(lambda: (lambda b: None if b is None else (_key(b.genome), float(b.fitness)))(d.best_individual)),
+                                   guarded(lambda: (lambda c: None if c is None else np.asarray(c).tobytes())(d.centroid)),
+                                   guarded(lambda: sorted(d.best_fitness_by_metaepoch.items())),
+                                   d.n_evaluations, d.metaepoch_count, d.is_active))
+            return a
+        try:
+            a1 = answers()
+            a2 = answers()
+            err = ""
+        except Exception as ex:  # noqa: BLE001
+            a1, a2, err = None, None, repr(ex)[:200]
+        d1 = self.state_digest(tree, with_rng=True)
+        ev = {"e": "report", "snap": self.snap(tree, full=False), "err": err,
+              "pure": int(d0 == d1), "nocalls": int(sum(self.level_calls.values()) == ncalls0),
+              "same": int(a1 is not None and repr(a1) == repr(a2))}
+        if a1 is not None:
+            rep = self.parse_report(a1["summary"], a1["tree"])
+            bi = tree.best_individual
+            rep["bestfit_ok"] = int(rep.get("bestfit") == f"{bi.fitness:.4e}")
+            rep["intree"] = int(a1["tree"] in a1["summary"])
+            # which demes carry the global best fitness (ranks are not available for report text: compare floats)
+            rep["isbest"] = [[d.id, int(d.best_individual is not None and d.best_individual.fitness == bi.fitness)]
+                             for _, d in tree.all_demes]
+            rep["bestzero"] = int(bi.fitness == 0.0)
+            ev["rep"] = rep
+        else:
+            ev["rep"] = {"ok": 0, "levels": [], "lines": [], "mc": -1, "tev": -1, "ndemes": -1, "bestfit_ok": 0, "intree": 0,
+                         "isbest": [], "bestzero": 0}
+        self.emit(ev)
+
+    def do_dump(self, tree) -> None:
+        """C19: pickle_dump / pickle_load at this boundary; the loaded tree is run to its end under its own recorder copy"""
+        from pyhms.tree import DemeTree
+        self.dumped = True
+        fd, path = tempfile.mkstemp(suffix=".pkl", dir=os.environ.get("VERIF_SCRATCH") or None)
+        os.close(fd)
+        ev = {"e": "dump", "snap": self.snap(tree, full=False), "err": ""}
+        try:
+            before = self.state_digest(tree, with_rng=True)
+            proj_before = self.state_digest(tree)
+            summary_before = tree.summary()
+            inner = getattr(tree._gsc, "inner", tree._gsc)
+            verdict_state = getattr(inner, "__dict__", {}).copy()
+            tree.pickle_dump(path)
+            ev["stutter"] = int(self.state_digest(tree, with_rng=True) == before)
+            loaded = DemeTree.pickle_load(path)
+            rec2 = loaded._gsc.rec
+            ev["loadeq"] = int(rec2.state_digest(loaded) == proj_before)
+            ev["summarysame"] = int(loaded.summary() == summary_before)
+            # the stop-condition verdict of the restored tree (scripted conditions are stateful: evaluate on copies)
+            import copy as _copy
+            v_live = bool(_copy.deepcopy(inner)(tree))
+            v_load = bool(_copy.deepcopy(getattr(loaded._gsc, "inner", loaded._gsc))(loaded))
+            ev["verdictsame"] = int(v_live == v_load)
+            ev["livestill"] = int(self.state_digest(tree, with_rng=True) == before)
+            # continue the loaded tree; the global generators are restored afterwards so the live run is not perturbed
+            st_np, st_py = np.random.get_state(), random.getstate()
+            try:
+                rec2.dump_event_index = len(rec2.events)
+                loaded.run()
+                rec2.emit({"e": "end", "snap": rec2.snap(loaded, full=True)})
+                status = "ok"
+            except TooManyConsults:
+                rec2.emit({"e": "abort", "why": "stalled", "snap": rec2.snap(loaded, full=True)})
+                status = "stalled"
+            except Exception as ex:  # noqa: BLE001
+                rec2.events.append({"e": "crash", "b": [], "why": repr(ex)[:200]})
+                status = "crash"
+            finally:
+                np.random.set_state(st_np)
+                random.setstate(st_py)
+            self.loaded_runs.append({"status": status, "events": rec2.finish(), "dump_event": rec2.dump_event_index})
+        except Exception as ex:  # noqa: BLE001
+            ev["err"] = repr(ex)[:300]
+            for k in ("stutter", "loadeq", "summarysame", "verdictsame", "livestill"):
+                ev.setdefault(k, 0)
+        finally:
+            if os.path.exists(path):
+                os.unlink(path)
+        self.emit(ev)
+
     def emit(self, ev: dict) -> None:
         ev["b"] = self.take_batches()
         self.events.append(ev)
@@ -258,6 +424,11 @@ class RecGSC(GlobalStopCondition):
             by = "run"
         elif name == "run_step":
             by = "step"
+        if by == "run":
+            if rec.reports:
+                rec.emit_report(tree)
+            if rec.dump_at is not None and not rec.dumped and int(tree.metaepoch_count) >= rec.dump_at:
+                rec.do_dump(tree)
         v = bool(self.inner(tree))
         rec.emit({"e": "gsc", "by": by, "d": d, "v": v, "snap": rec.snap(tree, full=(by != "deme"))})
         return v
